@@ -4,7 +4,17 @@ func H_C06_Data() {
 	n := vParam("len")
 	raw := vBytes("bytes", n)
 	p := NewData()
-	p.Add(raw)
+	switch vParam("via") {
+	case 1:
+		p.SetData(raw)
+	case 2:
+		// in two pieces
+		p.Add(raw[:n/2])
+		p.Add(raw[n/2:])
+	default:
+		p.Add(raw)
+	}
+	vCheck(int(p.Size()) == n, "Data/Size-is-the-number-of-bytes")
 	enc, err := p.Marshal()
 	vCheck(err == nil, "Data/marshal-ok")
 	vCheck(len(enc) == 2+n, "Data/size")
